@@ -400,6 +400,9 @@ class IterVal:
 
 
 def py_len(I, ctx, v):
+    from . import nparr
+    if isinstance(v, nparr.NArr):
+        return B.wrap(B._z(v.n))
     if isinstance(v, (TupleVal, ListVal)):
         return len(v.items)
     if isinstance(v, (DictVal, SetVal)):
@@ -432,6 +435,9 @@ def py_type(I, ctx, v):
         return b["NoneType"]
     if isinstance(v, (Obj, B.SymRec)):
         return v.cls
+    from . import nparr
+    if isinstance(v, nparr.NArr):
+        return I.ndarray_class
     if isinstance(v, TupleVal):
         return v.cls or b["tuple"]
     if isinstance(v, bool) or (isinstance(v, Sym) and v.kind == "bool"):
